@@ -147,6 +147,16 @@ func cellsC05(thorough bool) []Cfg {
 			out = append(out, c3)
 		}
 	}
+	// the component's own failure is a timeout of its own (context.DeadlineExceeded), also at the very end of the run
+	for _, f := range []Fault{{"prov", 1}, {"provlate", 0}, {"aggstart", 0}, {"aggend", 0}} {
+		for _, per := range []bool{false, true} {
+			c := base()
+			c.Fault = f
+			c.PerInst = per
+			c.CauseDeadline = true
+			out = append(out, c)
+		}
+	}
 	// cancellation at every phase
 	for _, shot := range []int64{0, 600000} {
 		for _, per := range []bool{false, true} {
